@@ -388,9 +388,181 @@ pub fn run(ctx: &mut Ctx) {
             }
         }
     }
+    server_family(ctx);
+}
+
+// ------------------------------------------------------------------ server level
+
+fn server_case_json(bad: &[u8], split: usize, cont: &[u8], pre_valid: bool) -> J {
+    J::obj(vec![
+        ("engine", J::s("server-simulator")),
+        ("bad_hex", J::hexs(bad)),
+        ("bad_show", J::s(&show(bad))),
+        ("split", J::u(split as u64)),
+        ("continuation_hex", J::hexs(cont)),
+        ("continuation_show", J::s(&show(cont))),
+        ("pre_valid", J::Bool(pre_valid)),
+    ])
+}
+
+/// After a 400 the rejected request is never yielded and a following well-formed request on
+/// the same connection is yielded and answered. `bad` must contain the text REJECTED in its URI.
+fn server_case(ctx: &mut Ctx, bad: &[u8], split: usize, cont: &[u8], pre_valid: bool) -> bool {
+    use crate::sim::{judge_client, JudgeOpts, PollOut, ReqKind, Sim};
+    if !ctx.begin() {
+        return false;
+    }
+    ctx.rep.evaluations += 1;
+    ctx.rep.count("server_cases");
+    let mut sim = match Sim::new(false, None) {
+        Ok(s) => s,
+        Err(_) => return false,
+    };
+    let fail = |ctx: &mut Ctx, kind: &str, d: String| {
+        ctx.rep.violation(&format!("C11:server:{}", kind), d, server_case_json(bad, split, cont, pre_valid));
+        true
+    };
+    sim.connect(0);
+    sim.poll();
+    let gi = 0;
+    let mut expected: Vec<String> = Vec::new();
+    if pre_valid {
+        sim.send_request(gi, ReqKind::Get);
+        expected.push(sim.gens[gi].completed.last().cloned().unwrap_or_default());
+        for _ in 0..3 {
+            sim.poll();
+        }
+        while !sim.outstanding.is_empty() {
+            sim.respond(0, 0);
+        }
+        sim.poll();
+        sim.drain(gi, 0);
+    }
+    // the offending request, possibly in two writes so that a partial line is buffered
+    let split = split.min(bad.len());
+    if split > 0 && split < bad.len() {
+        sim.send_bytes(gi, &bad[..split]);
+        sim.poll();
+        sim.send_bytes(gi, &bad[split..]);
+    } else {
+        sim.send_bytes(gi, bad);
+    }
+    // poll until the server has consumed the whole offending input and gone idle
+    let mut got_400 = false;
+    for _ in 0..16 {
+        let idle = sim.poll() == PollOut::Idle;
+        sim.drain(gi, 0);
+        if idle {
+            break;
+        }
+    }
+    if let Ok(v) = judge_client(&sim.gens[gi], &JudgeOpts { allow_500: false }) {
+        got_400 = v.bad_requests >= 1 && v.partial_tail == 0;
+    }
+    if !got_400 {
+        return fail(ctx, "no-400", format!("the client sent {:?} and never received a complete 400", show(bad)));
+    }
+    ctx.rep.count("server_400_received");
+    // continuation bytes that contain no valid request
+    if !cont.is_empty() {
+        sim.send_bytes(gi, cont);
+        for _ in 0..8 {
+            let idle = sim.poll() == PollOut::Idle;
+            sim.drain(gi, 0);
+            if idle {
+                break;
+            }
+        }
+    }
+    // a well-formed request afterwards
+    sim.send_request(gi, ReqKind::Get);
+    let tag = sim.gens[gi].completed.last().cloned().unwrap_or_default();
+    expected.push(tag.clone());
+    let mut answered = false;
+    for _ in 0..8 {
+        if let Some(oi) = sim.outstanding.iter().position(|o| o.tag == tag) {
+            sim.respond(oi, 0);
+            answered = true;
+        }
+        if sim.poll() == PollOut::Idle && answered {
+            break;
+        }
+        sim.drain(gi, 0);
+    }
+    sim.drain(gi, 0);
+    if let Some((step, e)) = sim.api_errors.first() {
+        return fail(ctx, "api-error", format!("step {}: {}", step, e));
+    }
+    if let Some(u) = sim.untagged_yields.first() {
+        return fail(ctx, "rejected-request-yielded", format!("after the 400 for {:?} (continuation {:?}) a request with URI {:?} was yielded to the application", show(bad), show(cont), u));
+    }
+    if sim.gens[gi].yielded != expected {
+        let kind = if sim.gens[gi].yielded.len() < expected.len() { "later-valid-request-not-yielded" } else { "unexpected-yield" };
+        return fail(ctx, kind, format!("yielded {:?}, expected exactly {:?} (bad request {:?}, continuation {:?})", sim.gens[gi].yielded, expected, show(bad), show(cont)));
+    }
+    match judge_client(&sim.gens[gi], &JudgeOpts { allow_500: false }) {
+        Err((k, d)) => return fail(ctx, &k, d),
+        Ok(v) => {
+            if v.app_responses != expected.len() {
+                return fail(ctx, "later-valid-request-not-answered", format!("{} application responses received, {} expected", v.app_responses, expected.len()));
+            }
+        }
+    }
+    ctx.rep.count("server_valid_request_after_400_yielded_and_answered");
+    false
+}
+
+fn server_family(ctx: &mut Ctx) {
+    let bads: Vec<Vec<u8>> = vec![
+        b"GET /REJECTED HTTP/1.1\r\nbadheader\r\n\r\n".to_vec(),
+        b"GET /REJECTED HTTP/1.1\r\nbadheader\r\n".to_vec(),
+        b"BAD /REJECTED HTTP/1.1\r\n\r\n".to_vec(),
+        b"BAD /REJECTED HTTP/1.1\r\n".to_vec(),
+        b"GET /REJECTED HTTP/9.9\r\n".to_vec(),
+        b"GET /REJECTED HTTP/1.1\r\nContent-Length: x\r\n".to_vec(),
+        b"PUT /REJECTED HTTP/1.1\r\nContent-Length: 51201\r\n\r\n".to_vec(),
+        b"PUT /REJECTED HTTP/1.1\r\nExpect: 100-continue\r\nContent-Length: 99999\r\n\r\n".to_vec(),
+        b"GET /REJECTED HTTP/1.1\r\nAccept-Encoding: identity;q=0\r\n".to_vec(),
+        b"GET /REJECTED HTTP/1.1\r\nX: \xff\xfe\r\n".to_vec(),
+        {
+            let mut v = b"GET /REJECTED".to_vec();
+            v.extend(std::iter::repeat(b'a').take(1100));
+            v.extend_from_slice(b" HTTP/1.1\r\n\r\n");
+            v
+        },
+        {
+            let mut v = b"GET /REJECTED HTTP/1.1\r\nX-Long: ".to_vec();
+            v.extend(std::iter::repeat(b'b').take(1100));
+            v.extend_from_slice(b"\r\n\r\n");
+            v
+        },
+    ];
+    let conts: Vec<&[u8]> = vec![b"", b"\r\n", b"\r\n\r\n", b"Content-Length: 1\r\n\r\nX", b"X-More: h\r\n\r\n", b"\x00garbage\r\n"];
+    let mut idx = 0u64;
+    for bad in &bads {
+        let splits: Vec<usize> = if ctx.quick() { vec![0, 5, bad.len().saturating_sub(3)] } else { (0..bad.len().min(60)).chain([bad.len().saturating_sub(3), bad.len() / 2]).collect() };
+        for split in splits {
+            for cont in &conts {
+                for pre in [false, true] {
+                    idx += 1;
+                    if !ctx.mine(idx) {
+                        continue;
+                    }
+                    if server_case(ctx, bad, split, cont, pre) && ctx.rep.violations_total > 30 {
+                        return;
+                    }
+                }
+            }
+        }
+    }
 }
 
 pub fn replay(ctx: &mut Ctx, case: &J) {
+    if case.gs("engine") == "server-simulator" {
+        ctx.only_case = None;
+        server_case(ctx, &case.ghex("bad_hex"), case.gu("split") as usize, &case.ghex("continuation_hex"), matches!(case.get("pre_valid"), Some(J::Bool(true))));
+        return;
+    }
     let fd_seg = case.get("fd_seg").and_then(|x| x.as_i64()).unwrap_or(-1);
     let c = Case {
         a: case.ghex("a_hex"),
